@@ -1040,6 +1040,9 @@ fn cat(mut a: Vec<MetaType>, b: Vec<MetaType>) -> Vec<MetaType> {
 /// without error: the base for C06/C10/C16 workloads.
 pub fn families() -> Vec<Entry> {
     let list: Vec<(&str, Vec<MetaType>)> = vec![
+        ("single_unit", metas![prims::Unit]),
+        ("single_prim", metas![u8]),
+        ("single_empty_enum", metas![enums::Empty]),
         ("prims", prims::metas()),
         ("enums", enums::metas()),
         ("generics1", generics1::metas()),
